@@ -327,6 +327,24 @@ func runC12(env *Env, data map[string]any) *Outcome {
 			}
 		}
 	}
+	// ---- klog today --diff --now: must not crash; when it succeeds current + other = all still holds ----
+	tn := runCLI(env, opts, "today", "--diff", "--now", "--decimal", "--no-style", "--no-warn", file)
+	evals++
+	if tn.Panic != "" {
+		o.Findings = append(o.Findings, Finding{Kind: "D", What: "klog today --diff --now crashes: " + tn.Panic, Impl: tn.Stdout, Signature: crashSignature("C12", tn.Panic, data)})
+	} else if tn.Code == 0 {
+		if rows, footer, ok := parseTable(tn.Stdout); ok && len(rows) == 2 && len(footer) >= 3 {
+			ct, cok := cellInt(rows[0][0])
+			ot, _ := cellInt(rows[1][0])
+			at, _ := cellInt(footer[0])
+			if !cok {
+				ct = 0
+			}
+			if ct+ot != at {
+				fail("klog today --now: current + other != all", tn.Stdout, "")
+			}
+		}
+	}
 	// ---- klog print --with-totals ----
 	pw := runCLI(env, opts, "print", "--with-totals", "--no-style", "--no-warn", file)
 	evals++
